@@ -260,8 +260,8 @@ class C09Check(StatCheck):
     rule = ("cells (k, p, N): R independent reservoirs; hypotheses: retention of arrival t after n updates vs "
             "p(1-p/k)^(n-t) (t>k) / (1-p/k)^(n-k) (t<=k) at every n, acceptance frequency vs p, replaced slot vs 1/k; "
             "p=1 newest always present and p=0 content frozen are deterministic claims")
-    assumptions = ["p = 0: an acceptance has probability 2^-53 per update (random.random() == 0.0) and is not flagged unless "
-                   "it happens at least twice in a cell"]
+    assumptions = ["p = 0 is judged strictly: random.random() draws from [0, 1), and a draw of exactly 0.0 (scripted through the "
+                   "RNG seam, since it has probability 2^-53) must not be accepted either"]
 
     def cells(self, tier):
         out = []
@@ -326,8 +326,32 @@ class C09Check(StatCheck):
                 prev = tags
             if det:
                 break
-        if pv <= 0.0 and frozen_changes >= 2:
+        if pv <= 0.0 and frozen_changes >= 1:
             det = ("frozen-reservoir-changed", "p=0 but the content changed %d times after the fill" % frozen_changes)
+        zero_draws = 0
+        if pv <= 0.0 and det is None:
+            # scripted: the generator returns exactly 0.0 (legal for random.random(), probability 2^-53 per draw)
+            tape = seams.TAPE
+            tape.install()
+            try:
+                s = GeometricReservoirStorage(size=k, store_targets=False, constant_probability=pv)
+                for n in range(1, k + 1):
+                    tape.begin_op(None, None)
+                    s.update({"t": n})
+                before = [r["t"] for r in s.get_data()[0]]
+                for n in range(k + 1, k + 4):
+                    tape.begin_op({"u": ["zero"]}, None)
+                    s.update({"t": n})
+                    zero_draws += 1
+                    tags = [r["t"] for r in s.get_data()[0]]
+                    if tags != before:
+                        det = ("frozen-reservoir-changed", "p=0 but arrival %d entered the reservoir when the generator "
+                               "returned 0.0 (content %r -> %r)" % (n, before, tags))
+                        break
+            finally:
+                tape.begin_op(None, None)
+                tape.counts = {}
+                tape.remove()
         fam = Family()
         q = 1.0 - pv / k
         ns_test = range(k + 1, N + 1)
@@ -341,7 +365,8 @@ class C09Check(StatCheck):
         if k > 1 and accepts > 0:
             for j in range(k):
                 fam.add("slot:k=%d:p=%s:slot=%d" % (k, p, j), slots[j], accepts, 1.0 / k)
-        return fam, det, {"draw_ops": R * N, "probes": {"reservoirs": R, "accepts": accepts}}
+        return fam, det, {"draw_ops": R * N, "probes": {"reservoirs": R, "accepts": accepts,
+                                                                "scripted_zero_draws_at_p0": zero_draws}}
 
     def reductions(self, plan):
         out = []
